@@ -1,14 +1,15 @@
 #!/usr/bin/env python3
 """record_seeded.py <PROP> <mN> <caught: yes|no|partly> <classes seen> -- copies /tmp/pending/<PROP>/<mN> to /verif/seeded/<PROP>-<mN>/ with meta.json"""
 import sys, os, shutil, json, re
-prop, m, caught, classes = sys.argv[1], sys.argv[2], sys.argv[3], sys.argv[4]
-src = f"/tmp/pending/{prop}/{m}"
+srcprop, m, caught, classes = sys.argv[1], sys.argv[2], sys.argv[3], sys.argv[4]
+prop = sys.argv[5] if len(sys.argv) > 5 else srcprop
+src = f"/verif/.pending/{srcprop}/{m}"
 dst = f"/verif/seeded/{prop}-{m}"
 os.makedirs(dst, exist_ok=True)
 for f in os.listdir(src):
     if f.endswith('.log'): continue
     shutil.copy(os.path.join(src, f), os.path.join(dst, f))
-parent = f"/tmp/pending/{prop}"
+parent = f"/verif/.pending/{srcprop}"
 for f in os.listdir(parent):
     p = os.path.join(parent, f)
     if os.path.isfile(p) and f.endswith('.sh'): shutil.copy(p, os.path.join(dst, f))
@@ -25,6 +26,7 @@ meta = {
   "confirmed_by_me": "patch applies to /repo HEAD, harness and ferrous build with it; the sub-agent reports: cargo build ok, existing suite unchanged (75/75/0/5/8/0 passed), demonstration fails with and passes without the patch",
   "what_i_ran": f"git -C /repo apply patch.diff && VERIF_BUDGET_S=20 ./check {prop} quick ; git -C /repo checkout -- .",
   "caught": caught,
+  "note": ("patch.diff was re-created by hand on the repaired code (the sub-agent's original, patch.original.diff, no longer applies after the fix commits); same defect, same trigger" if os.path.exists(os.path.join(src, 'patch.original.diff')) else ""),
   "violation_classes_reported": classes.split(';') if classes else [],
 }
 json.dump(meta, open(os.path.join(dst, 'meta.json'), 'w'), indent=1)
